@@ -304,7 +304,10 @@ def _math():
 
 
 def programs():
+    from . import extra2
+
     out = _symmetry() + _math() + _cleanup() + _minmax() + _sumchains() + _normalize() + _unused() + _duplication() + _robust() + _domains() + _projection()
+    out += extra2.programs()  # second round of seeded changes
     # the harness samples stratified by tag: give every variant of a class its own tag (class#variant)
     seen: dict = {}
     for prog in out:
